@@ -75,6 +75,38 @@ fn cls_n(n: u64, dist: u128) -> &'static str {
     }
 }
 
+/// the provided methods of `Step` (panicking and unchecked variants), which an implementation may override: they must land
+/// where the checked ones do. The unchecked ones are only called when the position exists (their safety precondition).
+fn provided_variants<T: Step + Copy>(rep: &mut Report, ty: &str, x: T, n: u64, ef: Option<u64>, eb: Option<u64>, val: &dyn Fn(T) -> u64) {
+    let ctx = |what: &str, exp: Option<u64>, got: J| J::obj(vec![("type", J::s(ty)), ("start", J::hex(val(x))), ("count", J::hex(n)), ("what", J::s(what)), ("expected", fmt_opt(exp)), ("got", got)]);
+    match catch(|| val(Step::backward(x, n as usize))) {
+        Ok(g) => {
+            if Some(g) != eb {
+                rep.violation(&format!("{}::backward|wrong", ty), ctx("backward", eb, J::hex(g)));
+            }
+        }
+        Err(()) => {
+            if eb.is_some() {
+                rep.violation(&format!("{}::backward|spurious-panic", ty), ctx("backward", eb, J::s("panic")));
+            }
+        }
+    }
+    if ef.is_some() {
+        match catch(|| val(unsafe { Step::forward_unchecked(x, n as usize) })) {
+            Ok(g) if Some(g) == ef => {}
+            Ok(g) => rep.violation(&format!("{}::forward_unchecked|wrong", ty), ctx("forward_unchecked", ef, J::hex(g))),
+            Err(()) => rep.violation(&format!("{}::forward_unchecked|panic", ty), ctx("forward_unchecked", ef, J::s("panic"))),
+        }
+    }
+    if eb.is_some() {
+        match catch(|| val(unsafe { Step::backward_unchecked(x, n as usize) })) {
+            Ok(g) if Some(g) == eb => {}
+            Ok(g) => rep.violation(&format!("{}::backward_unchecked|wrong", ty), ctx("backward_unchecked", eb, J::hex(g))),
+            Err(()) => rep.violation(&format!("{}::backward_unchecked|panic", ty), ctx("backward_unchecked", eb, J::s("panic"))),
+        }
+    }
+}
+
 fn check_addr(rep: &mut Report, a: u64, b: u64, n: u64, cn: &str) {
     rep.eval();
     let va = VirtAddr::new(a);
@@ -126,6 +158,7 @@ fn check_addr(rep: &mut Report, a: u64, b: u64, n: u64, cn: &str) {
             }
         }
     }
+    provided_variants(rep, "VirtAddr", va, n, ef, eb, &|v: VirtAddr| v.as_u64());
     // steps_between a -> b
     let vb = VirtAddr::new(b);
     let es = exp_between(a, b, 1);
@@ -186,6 +219,16 @@ fn check_page<S: PageSize>(rep: &mut Report, a: u64, b: u64, n: u64, tag: &str, 
         }
         Err(()) => rep.violation(&format!("Page<{}>::backward_checked|panic", tag), ctx("backward_checked", fmt_opt(eb), J::s("panic"))),
     }
+    provided_variants(rep, &format!("Page<{}>", tag), pa, n, ef, eb, &|p: Page<S>| p.start_address().as_u64());
+    match catch(|| Step::forward(pa, n as usize).start_address().as_u64()) {
+        Ok(g) if Some(g) == ef => {}
+        Ok(g) => rep.violation(&format!("Page<{}>::forward|wrong", tag), ctx("forward", fmt_opt(ef), J::hex(g))),
+        Err(()) => {
+            if ef.is_some() {
+                rep.violation(&format!("Page<{}>::forward|spurious-panic", tag), ctx("forward", fmt_opt(ef), J::s("panic")));
+            }
+        }
+    }
     let es = exp_between(a, b, S::SIZE);
     match catch(|| Step::steps_between(&pa, &pb)) {
         Ok(g) => {
@@ -241,6 +284,16 @@ fn check_index(rep: &mut Report, s: u16, e: u16, n: u64) {
             }
         }
         Err(()) => rep.violation("PageTableIndex::backward_checked|panic", ctx("backward_checked")),
+    }
+    provided_variants(rep, "PageTableIndex", is, n, ef.map(|x| x as u64), eb.map(|x| x as u64), &|i: PageTableIndex| u16::from(i) as u64);
+    match catch(|| u16::from(Step::forward(is, n as usize))) {
+        Ok(g) if Some(g) == ef => {}
+        Ok(_) => rep.violation("PageTableIndex::forward|wrong", ctx("forward")),
+        Err(()) => {
+            if ef.is_some() {
+                rep.violation("PageTableIndex::forward|spurious-panic", ctx("forward"));
+            }
+        }
     }
     let es = if e >= s { ((e - s) as usize, Some((e - s) as usize)) } else { (0, None) };
     match catch(|| Step::steps_between(&is, &ie)) {
